@@ -49,6 +49,10 @@ Definition qcheck5 (s : s5) (q : qobs) : bool :=
       && forallb (fun x => zmem x (bad s) || zmem x (pend s) || zmem x l) (akeys (att s))
   | QComps e l => zperm_b l (map snd (trow (att s) e))
   | QIsH _ _ => true
+  (* components stay queryable whatever the marks: clause (i) *)
+  | QHas e ty r => Bool.eqb r (match tget (att s) e ty with Some _ => true | None => false end)
+  | QGetC e ty r => oz_eqb r (tget (att s) e ty)
+  | QGet ty l => pperm_b l (tall (att s) ty)
   end.
 
 Definition upd (s : s5) (t : table) (pd bd : list Z) : s5 :=
